@@ -34,7 +34,9 @@ ASSUMPTIONS = [
 def cases(draw, kinds=gen_tables.KINDS):
     spec = draw(gen_tables.cid_specs(kinds=kinds))
     rows = draw(gen_tables.tables(spec))
-    via = draw(st.sampled_from(["stream", "path"]))
+    via = draw(st.sampled_from(["stream", "path", "stream", "path", "file-stream", "fd-stream"]))
+    if spec["fmt"]["format"] not in ("delimited", "fixed") and via.endswith("-stream"):
+        via = "path"
     return {"spec": spec, "rows": rows, "via": via}
 
 
@@ -54,6 +56,13 @@ def read_all(cid, source, mode="yield", validate_until=None):
     return items, ended
 
 
+def _show(error):
+    try:
+        return str(error)
+    except Exception as failure:
+        return "<%s whose text cannot be built: %s>" % (type(error).__name__, failure)
+
+
 def compare_outcomes(sub, prefix, case, spec, expected, items, base_name, fmt_name):
     """Compare yielded items with predicted outcomes (yield mode). Returns True if fully compared."""
     wanted = [o for o in expected["outcomes"] if o is not None]
@@ -71,7 +80,7 @@ def compare_outcomes(sub, prefix, case, spec, expected, items, base_name, fmt_na
         if kind in ("row", "unvalidated"):
             if isinstance(item, Exception):
                 sub.fail("%s|rejected-but-must-accept|%s|%s" % (prefix, type(item).__name__, fmt_name), case,
-                         "row %r must be accepted but: %s" % (outcome[1], item))
+                         "row %r must be accepted but: %s" % (outcome[1], _show(item)))
             elif item != outcome[1]:
                 sub.fail("%s|row-changed|%s" % (prefix, fmt_name), case, "row %r came back as %r" % (outcome[1], item))
             continue
@@ -85,6 +94,12 @@ def compare_outcomes(sub, prefix, case, spec, expected, items, base_name, fmt_na
             sub.fail("%s|error-class|expected-%s|got-%s|%s" % (prefix, cls, type(item).__name__, fmt_name), case,
                      "line %d: expected %s, got %r" % (line, cls, item))
             continue
+        try:
+            text = str(item)
+        except Exception as error:  # the error cannot even be shown to the user
+            sub.fail("%s|error-text-raises|%s|%s" % (prefix, type(error).__name__, fmt_name), case,
+                     "str() of the %s for line %d raised %s: %s" % (cls, line, type(error).__name__, error))
+            continue
         location = item.location
         if location is None:
             sub.fail("%s|no-location|%s|%s" % (prefix, cls, fmt_name), case, "error without location: %s" % item)
@@ -92,7 +107,6 @@ def compare_outcomes(sub, prefix, case, spec, expected, items, base_name, fmt_na
         if location.line != line:
             sub.fail("%s|wrong-row|%s|%s" % (prefix, cls, fmt_name), case,
                      "error for line %d is located at line %d: %s" % (line, location.line, item))
-        text = str(item)
         if not text.startswith("%s (R%d" % (base_name, line + 1)):
             sub.fail("%s|location-text|%s|%s" % (prefix, cls, fmt_name), case,
                      "error text does not start with %r: %s" % ("%s (R%d" % (base_name, line + 1), text))
@@ -141,7 +155,11 @@ def check_case(sub, case):
         source, base_name = gen_tables.write_source(spec, rows, tmpdir, via)
         stored = gen_tables.stored_rows(spec, rows)
         expected = model_validio.predict(spec, stored)
-        items, ended = read_all(cid, source)
+        try:
+            items, ended = read_all(cid, source)
+        finally:
+            if hasattr(source, "close"):
+                source.close()
         if ended is not None and not isinstance(ended, errors.CheckError):
             sub.fail("C04|exception|%s|%s" % (type(ended).__name__, fmt_name), case,
                      "reading raised %s: %s" % (type(ended).__name__, ended))
